@@ -1,4 +1,5 @@
 from __future__ import annotations
+import logging
 import socket
 import platform
 from collections.abc import Callable
@@ -112,16 +113,19 @@ class RawLinkLayer(LinkLayer):
         while True:
             try:
                 m = self.sock.recv(1500)
-                try:
-                    if m[0:6] == self.mac_address:
-                        self.receive_callback(m[14:])
-                    elif (
-                        m[0:6] == b"\xff\xff\xff\xff\xff\xff"
-                        and m[6:12] != self.mac_address
-                    ):
-                        self.receive_callback(m[14:])
-                except Exception as e:  # pylint: disable=broad-except
-                    # A malformed or unsupported frame must never stop the receive loop.
-                    print("Error decoding packet: " + str(e))
             except OSError:
+                # The socket was closed: stop receiving.
                 break
+            try:
+                if m[0:6] == self.mac_address:
+                    self.receive_callback(m[14:])
+                elif (
+                    m[0:6] == b"\xff\xff\xff\xff\xff\xff"
+                    and m[6:12] != self.mac_address
+                ):
+                    self.receive_callback(m[14:])
+            except Exception as e:  # pylint: disable=broad-except
+                # A malformed or unsupported frame must never stop the receive loop, and neither
+                # must reporting it: print() raises when stdout is closed, and an OSError raised
+                # here used to be taken for a socket error (the loop ended silently).
+                logging.getLogger("link_layer").warning("Error decoding packet: %s", e)
